@@ -297,17 +297,19 @@ RELAXED_TO_IMM = {"rexgot_mov", "rexgot_sub", "rexgot_cmp"}
 
 
 def abs_domain_known_defect(ref, t):
-    """Exact domain of the known finding (C01/C14): absolute symbol with value in [2^31, 2^32)
-    referenced by a REX.W mov/sub/cmp sym@GOTPCREL(%rip) (R_X86_64_REX_GOTPCRELX), which wild
-    relaxes to a sign-extended imm32."""
-    return t["kind"] == "abs" and ref in RELAXED_TO_IMM and 0x80000000 <= t["absval"] < 0x100000000
+    """Domain of the finding `abs-gotpcrelx-imm-sign-extended` (fixed upstream by 93d89dd): REX.W
+    mov/sub/cmp sym@GOTPCREL(%rip) against an absolute symbol in [2^31, 2^32) used to be relaxed to
+    a sign-extended imm32 with the wrong value. Since the fix the link is refused instead, see
+    abs_domain_link_error. Kept for the regression replay only."""
+    return False
 
 
 def abs_domain_link_error(ref, t):
-    """Same relaxation, absolute value >= 2^32: wild fails the link ("Relocation N outside of bounds
-    [0, 4294967296)") where GNU ld/lld keep the GOT load. A rejected link is outside C01's
-    quantifier, so this domain is never generated (it would only produce discards)."""
-    return t["kind"] == "abs" and ref in RELAXED_TO_IMM and t["absval"] >= 0x100000000
+    """REX.W mov/sub/cmp sym@GOTPCREL(%rip) against an absolute symbol whose value does not fit a
+    sign-extended imm32: wild still relaxes and then fails the link ("Relocation N outside of
+    bounds [-2147483648, 2147483648)") where GNU ld/lld keep the GOT load. A rejected link is
+    outside C01's quantifier, so this domain is never generated (it would only produce discards)."""
+    return t["kind"] == "abs" and ref in RELAXED_TO_IMM and (1 << 31) <= t["absval"] < (1 << 64) - (1 << 31)
 
 
 def tlsgd_protected_shared_domain(ref, t, mode):
@@ -326,14 +328,13 @@ def known_domain(ref, t, mode):
     return None
 
 
-ALLOW_KNOWN = False     # C01 sets this to generate (and then count/skip) the known-defect domains
-
-
-def ref_ok(ref, t, mode, k=0):
-    """Soundness domain: may reference kind `ref` target definition `t` in output kind `mode`?"""
+def ref_ok(ref, t, mode, k=0, allow_known=False):
+    """Soundness domain: may reference kind `ref` target definition `t` in output kind `mode`?
+    allow_known=True also admits the exact domains of known findings (C01 generates them, then
+    skips and counts those cases)."""
     if ref in UNSUPPORTED_REFS or abs_domain_link_error(ref, t):
         return False
-    if not ALLOW_KNOWN and known_domain(ref, t, mode):
+    if not allow_known and known_domain(ref, t, mode):
         return False
     cls, nonpic = REFS[ref]
     kind = t["kind"]
@@ -442,7 +443,9 @@ class Program:
         p.pic = any(m in PIC_MODES for m in modes)
         return p
 
-    def __init__(self, spec, modes):
+    def __init__(self, spec, modes, rare_refs=(), allow_known=False):
+        """rare_refs: reference kinds drawn 8x less often (a site whose draw lands on one of them keeps
+        it only if its `aux` is a multiple of 8, else takes the next non-rare kind)."""
         self.modes = tuple(modes)
         self.ntu = max(2, min(6, spec["ntu"]))
         self.defs = []
@@ -502,9 +505,13 @@ class Program:
                     continue
                 if t["kind"] == "abs" and t["tu"] == tu:
                     continue      # gas folds a same-file absolute symbol instead of emitting a relocation
-                refs = [x for x in REF_NAMES if all(ref_ok(x, t, m, fix_k(x, t, k, modes)) for m in modes)]
+                refs = [x for x in REF_NAMES if all(ref_ok(x, t, m, fix_k(x, t, k, modes), allow_known) for m in modes)]
                 if refs:
                     ref = refs[r["ref"] % len(refs)]
+                    if ref in rare_refs and r["aux"] % 8 != 0:
+                        common_refs = [x for x in refs if x not in rare_refs]
+                        if common_refs:
+                            ref = common_refs[r["ref"] % len(common_refs)]
                     chosen = (t, ref, fix_k(ref, t, k, modes))
                     break
             if chosen is None:
@@ -835,8 +842,8 @@ class Program:
         return {"objs": objs, "libs": libs}
 
 
-def realise(spec, modes):
-    return Program(spec, modes)
+def realise(spec, modes, rare_refs=(), allow_known=False):
+    return Program(spec, modes, rare_refs, allow_known)
 
 
 def program_strategy(max_defs=10, max_sites=12, def_kinds=None, ntu=(2, 4)):
@@ -845,6 +852,6 @@ def program_strategy(max_defs=10, max_sites=12, def_kinds=None, ntu=(2, 4)):
     d = st.fixed_dictionaries({"tu": st.integers(0, 5), "kind": st.sampled_from(kinds), "bind": st.sampled_from(BINDS),
                                "pad": st.integers(0, 2), "aux": st.integers(0, 23), "dup": st.sampled_from([0, 0, 0, 1, 2])})
     s = st.fixed_dictionaries({"tu": st.integers(0, 5), "ref": st.integers(0, 63), "tgt": st.integers(0, 39),
-                               "k": st.integers(0, 3), "aux": st.integers(0, 7)})
+                               "k": st.integers(0, 3), "aux": st.integers(0, 15)})
     return st.fixed_dictionaries({"ntu": st.integers(*ntu), "defs": st.lists(d, min_size=2, max_size=max_defs),
                                   "sites": st.lists(s, min_size=1, max_size=max_sites)})
